@@ -7,3 +7,10 @@ pub(crate) mod c13 {
     use super::super::*;
     include!(concat!(env!("LIBP2P_VERIF"), "/units/C13/translation.rs"));
 }
+
+/// C13 on the sequence model of Multiaddr (function text extracted each run)
+#[allow(dead_code, unused_imports)]
+pub(crate) mod c13m {
+    use super::super::*;
+    include!(concat!(env!("LIBP2P_VERIF"), "/units/C13/model.rs"));
+}
